@@ -32,6 +32,8 @@ def declare(c):
 
 
 def language_rules(ctx):
+    rx.prepare(ctx.model)
+    rx.refine_alphabet([RS274_NUMBER])
     num = pattern(ctx.model, 'PAT_SIGNED_FLOAT')
     ok, cex = rx.included(num, RS274_NUMBER)
     ctx.instance('C19.R1', 'subset')
@@ -159,8 +161,9 @@ def items_rules(ctx, I):
 
 
 # letter that may legitimately feed each tracked quantity, per handler
-def path_rules(col, gcode, paths, I):
-    declare(col)
+def path_rules(col, gcode, paths, I, own=True):
+    if own:
+        declare(col)
     letters = set('XYZEFRIJPLS')
     strarg_rule(col, gcode, paths, I)
     for p in paths:
